@@ -29,7 +29,7 @@ non-trivial = the IRI contains a dot/empty/encoded segment or an absolute remain
     let c_fs = coq_list(fs_entries.iter().map(|(p, f)| format!("({}, {})", c_path(p), coq_bool(*f))));
     let ns1 = "http://e/ns/"; let ns2 = "http://e/ns/sub/";
     let (d1, d2) = (root.join("r1"), root.join("r2"));
-    let header = format!("From Sophia.C19 Require Import Model.\nFrom Sophia.gen Require Consts.\nDefinition the_fs : fsys := {c_fs}.\nDefinition cfgA : list cache := [({}, {}); ({}, {})].\nDefinition cfgB : list cache := [({}, {}); ({}, {})].\n",
+    let header = format!("From Sophia.C19 Require Import Model Config.\nFrom Sophia.gen Require Consts.\nDefinition the_fs : fsys := {c_fs}.\nDefinition cfgA : list cache := [({}, {}); ({}, {})].\nDefinition cfgB : list cache := [({}, {}); ({}, {})].\n",
         coq_str(ns1), c_path(&comps(&d1)), coq_str(ns2), c_path(&comps(&d2)), coq_str(ns2), c_path(&comps(&d2)), coq_str(ns1), c_path(&comps(&d1)));
     let loader_a = LocalLoader::new(vec![(Iri::new_unchecked(ns1.into()), d1.clone()), (Iri::new_unchecked(ns2.into()), d2.clone())]).unwrap();
     let loader_b = LocalLoader::new(vec![(Iri::new_unchecked(ns2.into()), d2.clone()), (Iri::new_unchecked(ns1.into()), d1.clone())]).unwrap();
@@ -53,6 +53,20 @@ non-trivial = the IRI contains a dot/empty/encoded segment or an absolute remain
     mk("real/sub/x.ttl", false); mk("real/r3/a.ttl", false); mk("real/r3/b", false); mk("r3/a.ttl", true); mk("r3/b", true);
     let _ = std::os::unix::fs::symlink(root.join("real/sub"), root.join("link"));
     let loader_d = LocalLoader::new(vec![(Iri::new_unchecked("http://e/ln/".into()), root.join("link/../r3"))]);
+    // generated configurations (Config.v): mappings drawn from a pool of acceptable and unacceptable ones, registered
+    // through new() or through add() calls; the model predicts the refusal pattern and the behaviour of the result
+    let rs = root.display().to_string();
+    let cfg_pool: Vec<(String, String)> = vec![
+        (ns1.into(), format!("{rs}/r1")), (ns2.into(), format!("{rs}/r2")), ("http://e/ns3/".into(), format!("{rs}/r1/sub")),
+        (ns1.into(), format!("{rs}/r2")), ("http://e/ns/sub/deep/".into(), format!("{rs}/r2/d")), ("http://e/".into(), format!("{rs}/r1/d")),
+        (ns2.into(), format!("{rs}/r1/../r2")), ("http://e/ns3/".into(), format!("{rs}/r1/d/../../r2/./d/")), (ns1.into(), format!("{rs}//r1/")),
+        ("http://e/ns".into(), format!("{rs}/r1")), ("http://e/ns/sub".into(), format!("{rs}/r2")), ("http://e/ns#".into(), format!("{rs}/r1")),
+        (ns1.into(), "r1".into()), (ns2.into(), "./r2".into()), (ns1.into(), "".into()),
+        (ns1.into(), format!("{rs}/secret")), (ns2.into(), format!("{rs}/r1/a.ttl")), (ns1.into(), format!("{rs}/no-such-dir")),
+        (ns2.into(), format!("{rs}/no-such-dir/../r2")), (ns1.into(), format!("{rs}/r1/a.ttl/../../r1")), (ns2.into(), format!("{rs}/r1/a.ttl/")),
+        ("http://e/ns".into(), "r1".into()), ("http://e/ns".into(), format!("{rs}/secret")),
+    ];
+    let cfg_code = |e: &sophia_resource::loader::LocalLoaderError| -> u64 { use sophia_resource::loader::LocalLoaderError::*; match e { IriMustEndWithSlash(_) => 1, PathMustBeAbsolute(_) => 2, PathMustBeDirectory(_) => 3 } };
     let canary_abs = root.join("secret").display().to_string();
     let segs: Vec<String> = ["a", "b", "d", "c.rdf", "c", "e", "..", ".", "", "%2e%2e", "%2E%2E", "%2e", "...", ".hidden", "sub", "inner", "g", "g.ttl", "secret", "outside", "a.ttl", "b.nt", "f", "r1", "r2", "r1x", "..%2f", "%2f"].iter().map(|s| s.to_string()).collect();
     let base = Rng::new(a.seed);
@@ -61,7 +75,7 @@ non-trivial = the IRI contains a dot/empty/encoded segment or an absolute remain
     for idx in range {
         let mut r = base.fork(idx as u64);
         let use_b = r.chance(1, 2);
-        let prefix = *r.pick(&[ns1, ns1, ns1, ns1, ns1, ns1, ns2, ns2, "http://e/ns", "http://e/", "http://other/ns/", "http://e/ns/sub", "http://e/outside", "http://e/rel/", "http://e/file/", "http://e/missing/"]);
+        let mut prefix = *r.pick(&[ns1, ns1, ns1, ns1, ns1, ns1, ns2, ns2, "http://e/ns", "http://e/", "http://other/ns/", "http://e/ns/sub", "http://e/outside", "http://e/rel/", "http://e/file/", "http://e/missing/", "http://e/ns3/", "http://e/ns/sub/deep/", "http://e/ns3/", "http://e/"]);
         let n = r.below(6);
         let mut path: Vec<String> = (0..n).map(|_| r.pick(&segs).clone()).collect();
         let abs_attack = r.chance(1, 10);
@@ -77,6 +91,17 @@ non-trivial = the IRI contains a dot/empty/encoded segment or an absolute remain
             if r.chance(1, 5) { path.insert(0, r.pick(&segs).clone()); }
             path.push(r.ps(&targets).to_string());
         }
+        // requests that designate existing files (directly, through content negotiation, with dot / empty segments as noise)
+        let valid = !abs_attack && !climb && r.chance(1, 4);
+        if valid {
+            let good = ["a.ttl", "a", "b", "b.nt", "d/c.rdf", "d/c", "d/e", "f", "f.jsonld", "sub/inner.ttl", "sub/inner", "g", "g.ttl", ".hidden", "%2e%2e", "...", "e.nt", "e", "c.rdf", "inner", "inner.ttl", "d/e.nt"];
+            let mut p: Vec<String> = r.ps(&good).split('/').map(|x| x.to_string()).collect();
+            if r.chance(1, 3) { p.insert(0, ".".into()); }
+            if r.chance(1, 4) { let k = r.below(p.len()); p.insert(k, "".into()); }
+            if r.chance(1, 5) { let k = r.below(p.len()); p.insert(k, ".".into()); }
+            path = p;
+            if r.chance(3, 4) { prefix = if r.chance(2, 3) { ns1 } else { ns2 }; }
+        }
         let long = r.chance(1, 40);
         if long { path.push("x".repeat(300)); }
         // the namespace itself (and "the namespace plus ./"): the last path component is then the mapped directory
@@ -86,7 +111,50 @@ non-trivial = the IRI contains a dot/empty/encoded segment or an absolute remain
         if r.chance(1, 4) { iri.push_str("#frag/../x"); }
         let Ok(iri_v) = Iri::new(iri.clone()) else { continue };
         let use_c = !use_b && r.chance(1, 2);
-        let loader = if use_b { &loader_b } else if use_c { &loader_c } else { &loader_a };
+        // a generated configuration for a quarter of the cases
+        let use_gen = r.chance(1, 4);
+        let mut gen_loader: Option<LocalLoader> = None;
+        let mut gen_ops: Vec<(String, String)> = vec![];
+        let mut gen_codes: Vec<u64> = vec![];
+        let mut gen_new_err: Option<u64> = None;   // Some(code) when built with new(): 0 = accepted
+        let mut gen_accepted: Vec<(String, PathBuf)> = vec![];
+        if use_gen {
+            let k = r.range(1, 4);
+            // mostly acceptable mappings, so that new() often succeeds
+            gen_ops = (0..k).map(|_| if r.chance(2, 3) { cfg_pool[r.below(9)].clone() } else { r.pick(&cfg_pool).clone() }).collect();
+            let mk_iri = |n: &str| Iri::new_unchecked(n.to_string().into());
+            if r.chance(1, 2) {
+                match LocalLoader::new(gen_ops.iter().map(|(n, d)| (mk_iri(n), PathBuf::from(d))).collect()) {
+                    Ok(l) => { gen_new_err = Some(0); gen_loader = Some(l); }
+                    Err(e) => { gen_new_err = Some(cfg_code(&e)); }
+                }
+            } else {
+                let mut l = LocalLoader::default();
+                for (n, d) in &gen_ops { gen_codes.push(match l.add(mk_iri(n), PathBuf::from(d)) { Ok(()) => 0, Err(e) => cfg_code(&e) }); }
+                gen_loader = Some(l);
+            }
+            // independent expectation of which mappings are acceptable (the documented pre-conditions)
+            let mut first_err = 0u64;
+            for (i, (n, d)) in gen_ops.iter().enumerate() {
+                let p = Path::new(d);
+                let want = if !n.ends_with('/') { 1 } else if !d.starts_with('/') { 2 } else if !std::fs::metadata(p).map(|m| m.is_dir()).unwrap_or(false) { 3 } else { 0 };
+                if want == 0 { gen_accepted.push((n.clone(), p.canonicalize().unwrap())); } else if first_err == 0 { first_err = want; }
+                if gen_new_err.is_none() && gen_codes[i] != want { sum.oracle_failures.push((idx.to_string(), format!("config: LocalLoader::add({n:?}, {d:?}) answered code {} (0 accepted, 1 slash, 2 absolute, 3 directory), the documented pre-conditions give {want}", gen_codes[i]))); }
+            }
+            if let Some(c) = gen_new_err { if c != first_err { sum.oracle_failures.push((idx.to_string(), format!("config: LocalLoader::new({gen_ops:?}) answered code {c}, the first offending mapping gives {first_err}"))); } }
+            sum.bump(if gen_new_err.is_some() { "config:generated-new" } else { "config:generated-adds" });
+            if gen_new_err.unwrap_or(0) != 0 || gen_codes.iter().any(|c| *c != 0) { sum.bump("config:with-refusal"); }
+        }
+        let c_ops = coq_list(gen_ops.iter().map(|(n, d)| format!("({}, {})", coq_str(n), coq_str(d))));
+        if use_gen && gen_loader.is_none() {
+            // new() refused: the refusal itself is the case
+            sum.evaluations += 1;
+            let text = format!("cfg=new{gen_ops:?} refused");
+            if seen.insert(text.clone()) { sum.distinct_nontrivial += 1; }
+            cases.push((idx, format!("new_get_ok the_fs Consts.loader_exts {c_ops} {} [] 0 [] 0", gen_new_err.unwrap())));
+            continue;
+        }
+        let loader = if use_gen { gen_loader.as_ref().unwrap() } else if use_b { &loader_b } else if use_c { &loader_c } else { &loader_a };
         let res = loader.get(iri_v);
         let (code, pth, ct, desc): (u64, Vec<String>, u64, String) = match &res {
             Ok((data, ctype)) => {
@@ -103,18 +171,23 @@ non-trivial = the IRI contains a dot/empty/encoded segment or an absolute remain
         if let Ok((data, _)) = &res {
             let s = String::from_utf8_lossy(data).to_string();
             let no_frag = iri.split('#').next().unwrap();
-            let ok = !s.starts_with("CANARY:") && [(ns1, &d1), (ns2, &d2)].iter().any(|(ns, d)| no_frag.starts_with(ns) && Path::new(&s).starts_with(d));
-            if !ok { sum.oracle_failures.push((idx.to_string(), format!("LocalLoader.get({iri:?}) with mappings {} returned the content of {s}, which is outside every directory mapped to a namespace prefixing the IRI", if use_b { "[sub->r2, ns->r1]" } else if use_c { "[ns->r1, sub->r2] (registered with add(), refused adds in between)" } else { "[ns->r1, sub->r2]" }))); }
+            let maps: Vec<(String, PathBuf)> = if use_gen { gen_accepted.clone() } else { vec![(ns1.to_string(), d1.clone()), (ns2.to_string(), d2.clone())] };
+            let ok = !s.starts_with("CANARY:") && maps.iter().any(|(ns, d)| no_frag.starts_with(ns.as_str()) && Path::new(&s).starts_with(d));
+            if !ok { sum.oracle_failures.push((idx.to_string(), format!("LocalLoader.get({iri:?}) with mappings {} returned the content of {s}, which is outside every directory mapped to a namespace prefixing the IRI", if use_gen { format!("{gen_ops:?} (generated; acceptable: {gen_accepted:?})") } else if use_b { "[sub->r2, ns->r1]".to_string() } else if use_c { "[ns->r1, sub->r2] (registered with add(), refused adds in between)".to_string() } else { "[ns->r1, sub->r2]".to_string() }))); }
         }
-        let text = format!("cfg={} iri={iri}", if use_b { "B" } else if use_c { "A(add)" } else { "A" });
+        let text = format!("cfg={} iri={iri}", if use_gen { format!("{}{gen_ops:?}", if gen_new_err.is_some() { "new" } else { "adds" }) } else if use_b { "B".into() } else if use_c { "A(add)".into() } else { "A".into() });
         if a.only.is_some() { println!("CASE {idx}: {text} => {desc}"); }
         let nontrivial = iri.contains("..") || iri.contains("/./") || iri.contains("//e") == false && iri[7..].contains("//") || iri.contains("%2") || abs_attack || (code == 0 && !iri.split('#').next().unwrap().ends_with(pth.last().map(|s| s.as_str()).unwrap_or("")));
         if seen.insert(text.clone()) && nontrivial { sum.distinct_nontrivial += 1; }
         sum.bump(&format!("result:{}", ["found", "not-found", "unsupported", "io-error"].get(code as usize).unwrap_or(&"other")));
-        if abs_attack { sum.bump("absolute-remainder"); } if climb { sum.bump("directed-climb"); } if iri.contains("..") { sum.bump("has-dotdot"); }
+        if valid { sum.bump("request-for-an-existing-file"); } if abs_attack { sum.bump("absolute-remainder"); } if climb { sum.bump("directed-climb"); } if iri.contains("..") { sum.bump("has-dotdot"); }
         if sum.samples.len() < 5 && nontrivial && (code == 0 || sum.samples.len() < 2) { sum.samples.push(format!("case {idx}: {text} => {desc}")); }
         sum.evaluations += 1;
-        if !long { cases.push((idx, format!("get_ok the_fs Consts.loader_exts {} {} {code} {} {ct}", if use_b { "cfgB" } else { "cfgA" }, coq_str(&iri), c_path(&pth)))); }
+        if !long {
+            if use_gen && gen_new_err.is_some() { cases.push((idx, format!("new_get_ok the_fs Consts.loader_exts {c_ops} 0 {} {code} {} {ct}", coq_str(&iri), c_path(&pth)))); }
+            else if use_gen { cases.push((idx, format!("adds_get_ok the_fs Consts.loader_exts {c_ops} {} {} {code} {} {ct}", coq_list(gen_codes.iter().map(|c| c.to_string())), coq_str(&iri), c_path(&pth)))); }
+            else { cases.push((idx, format!("get_ok the_fs Consts.loader_exts {} {} {code} {} {ct}", if use_b { "cfgB" } else { "cfgA" }, coq_str(&iri), c_path(&pth)))); }
+        }
     }
     for f in add_failures { sum.oracle_failures.push(("config-add".into(), f)); }
     match &loader_d {
